@@ -113,6 +113,54 @@ func main() {
 			}
 		}
 	}
+	// COLD groups: schema objects whose very first uses happen at the same instant (goroutines released
+	// together by one channel). State a schema initialises lazily on first use is first touched here.
+	var cold [][]int
+	for i := 0; i < *nSchemas; i++ {
+		g := &eng.Gen{R: root.Fork(), NoPosts: true}
+		schemaNode := g.Node(0)
+		schema := eng.Build(schemaNode, eng.NewRecorder())
+		var grp []int
+		for k := 0; k < 4; k++ {
+			c := &eng.Case{ID: len(jobs), Schema: schemaNode, Mode: "p", Input: g.Input(schemaNode), Dest: eng.ZeroD(schemaNode)}
+			if k%2 == 1 {
+				c.Mode, c.Input, c.Dest = "v", eng.V{}, g.DestValue(schemaNode, 25)
+			}
+			grp = append(grp, len(jobs))
+			jobs = append(jobs, &job{c: c, schema: schema})
+		}
+		cold = append(cold, grp)
+	}
+	// long enums (OneOf with 9..40 values), strings and numbers, values inside and outside the enum
+	for i := 0; i < 24; i++ {
+		n := &eng.Node{Kind: "prim", PK: "str"}
+		t := eng.TestSpec{ID: 1, Name: "oneof"}
+		size := 9 + 3*i/2
+		if i%2 == 0 {
+			for j := 0; j < size; j++ {
+				t.Args = append(t.Args, eng.D{K: "s", S: fmt.Sprintf("v%d", j)})
+			}
+		} else {
+			n.PK = "int"
+			for j := 0; j < size; j++ {
+				t.Args = append(t.Args, eng.D{K: "i", NK: "int", I: int64(3 * j)})
+			}
+		}
+		n.Tests = []eng.TestSpec{t}
+		schema := eng.Build(n, eng.NewRecorder())
+		var grp []int
+		for k := 0; k < 6; k++ {
+			c := &eng.Case{ID: len(jobs), Schema: n, Mode: "p", Dest: eng.ZeroD(n)}
+			if n.PK == "str" {
+				c.Input = eng.VStr(fmt.Sprintf("v%d", (k*5)%(size+2)))
+			} else {
+				c.Input = eng.VInt(int64(3 * ((k * 5) % (size + 2))))
+			}
+			grp = append(grp, len(jobs))
+			jobs = append(jobs, &job{c: c, schema: schema})
+		}
+		cold = append(cold, grp)
+	}
 	for _, j := range jobs {
 		j.c.Schema.GoType() // the harness caches reflect types lazily: do it before the goroutines start
 		j.c.Schema.GoTypeAlt()
@@ -129,6 +177,27 @@ func main() {
 	var done int64
 	var firstMismatch atomic.Value
 	var wg sync.WaitGroup
+	for _, grp := range cold {
+		start := make(chan struct{})
+		var cw sync.WaitGroup
+		for rep := 0; rep < 2; rep++ {
+			for _, jid := range grp {
+				cw.Add(1)
+				go func(jid int) {
+					defer cw.Done()
+					<-start
+					j := jobs[jid]
+					got := canon(eng.RunBuiltQuiet(j.schema, j.c), j.c.ID)
+					obsMu.Lock()
+					observed = append(observed, obs{jid, got})
+					obsMu.Unlock()
+					atomic.AddInt64(&done, 1)
+				}(jid)
+			}
+		}
+		close(start)
+		cw.Wait()
+	}
 	per := *calls / *workers
 	for w := 0; w < *workers; w++ {
 		wg.Add(1)
@@ -164,7 +233,7 @@ func main() {
 			firstMismatch.CompareAndSwap(nil, fmt.Sprintf("case %d\nalone:      %.600s\nconcurrent: %.600s", o.job, jobs[o.job].want, o.got))
 		}
 	}
-	sum := map[string]any{"calls": done, "mismatches": mism, "workers": *workers, "shared_schemas": *nSchemas, "jobs": len(jobs)}
+	sum := map[string]any{"calls": done, "mismatches": mism, "workers": *workers, "shared_schemas": *nSchemas, "jobs": len(jobs), "cold_groups": len(cold)}
 	if v := firstMismatch.Load(); v != nil {
 		sum["first_mismatch"] = v
 	}
